@@ -864,6 +864,45 @@ def r13_11(ctx: Ctx):
     return obs
 
 
+def r13_12(ctx: Ctx):
+    """R13.12 no fixed position is read out of a top-k population: `Population.topk` returns its rows best-FIRST when minimising
+    and best-LAST when maximising (head / tail of one ascending argsort), so `topk(k).fitnesses[0]` is the best elite in one
+    direction and the worst of them in the other; a decision taken on it differs between (f, max) and (-f, min)."""
+    obs = []
+    n = 0
+    for f in ctx.prog.all_functions():
+        if f.name == "<module>" or f.module.name.startswith(NON_DECISION_MODULES):
+            continue
+        defs = local_defs(f)
+        par = parents_map(f.node)
+        for x in body_walk(f.node):
+            if not (isinstance(x, ast.Subscript) and isinstance(x.slice, (ast.Constant, ast.UnaryOp)) and isinstance(x.value, ast.Attribute) and x.value.attr in ("fitnesses", "genomes")):
+                continue
+            idx = x.slice
+            if isinstance(idx, ast.UnaryOp) and not (isinstance(idx.op, ast.USub) and isinstance(idx.operand, ast.Constant)):
+                continue
+            base = x.value.value
+            hops = 0
+            while isinstance(base, ast.Name) and len(defs.get(base.id, [])) == 1 and hops < 3:
+                base = defs[base.id][0]
+                hops += 1
+            if not (isinstance(base, ast.Call) and isinstance(base.func, ast.Attribute) and base.func.attr == "topk"):
+                continue
+            n += 1
+            # under a maximize switch the position may be chosen per direction
+            q, under = x, False
+            while q is not None and q is not f.node:
+                p_ = par.get(id(q))
+                if isinstance(p_, (ast.IfExp, ast.If)) and q is not p_.test and _reads_maximize(p_.test):
+                    under = True
+                    break
+                q = p_
+            obs.append(ctx.ob("R13.12", f, x, status=OK if under else VIOLATION, detail=f"{f.short}: position chosen per direction" if under else f"{f.short}: `{norm(x)}` reads a fixed position of a top-k population; top-k rows are best-first when minimising and best-last when maximising, so this is the best of them in one direction and the WORST of them in the other: the decision taken on it is not the same on (f, max) and (-f, min)", construct=f"{f.short}:topk-position"))
+    if not obs:
+        obs.append(ctx.ob("R13.12", None, None, subject="pyhms", loc="-", detail="no fixed position is read out of a top-k population", construct="no-topk-position"))
+    return obs
+
+
 _NAN_TESTS = {"isnan"}
 _NONFINITE_TESTS = {"isfinite", "isinf", "isneginf", "isposinf"}
 
@@ -1003,4 +1042,5 @@ RULES = [
     ("R13.9", r13_9, 3),
     ("R13.10", r13_10, 1),
     ("R13.11", r13_11, 2),
+    ("R13.12", r13_12, 1),
 ]
